@@ -2,7 +2,7 @@
 # Builds the framework from files on disk only (offline) and runs the
 # self-tests of the machinery (reference model, instrumenter).
 set -e
-cd /verif
+cd "$(dirname "$0")"
 export GOFLAGS=-mod=mod GOPROXY=off GOSUMDB=off GOTOOLCHAIN=local
 mkdir -p bin evidence replays
 go build -o bin/verif ./cmd/verif
